@@ -475,3 +475,45 @@ Proof.
   exists (fun x => negb (N.eqb x 2)), [1%N; 2%N], [2%N; 1%N]. split; [apply perm_swap|].
   cbn. intros H. apply Permutation_length in H. cbn in H. discriminate.
 Qed.
+
+(* ------------------------------------------------------------------ *)
+(* order-exposing consumers that are harmless in special cases *)
+
+(* a set with at most one element has a single arrangement *)
+Lemma at_most_one_arrangement : forall (s s' : list N), length s <= 1 -> Permutation s s' -> s = s'.
+Proof.
+  intros s s' Hl HP. destruct s as [|x [|y t]]; cbn in Hl; try lia.
+  - apply Permutation_nil in HP. subst. reflexivity.
+  - apply Permutation_length_1_inv in HP. subst. reflexivity.
+Qed.
+
+(* "keep the first success": the result is arrangement-independent as soon as all successes agree *)
+Lemma find_some_perm : forall (ok : N -> bool) s s', Permutation s s' ->
+  (find ok s = None <-> find ok s' = None).
+Proof.
+  intros ok s s' HP. split; intros H.
+  - destruct (find ok s') eqn:E; [|reflexivity]. apply find_some in E. destruct E as [Hin Hok].
+    apply (Permutation_in _ (Permutation_sym HP)) in Hin. pose proof (find_none _ _ H _ Hin). congruence.
+  - destruct (find ok s) eqn:E; [|reflexivity]. apply find_some in E. destruct E as [Hin Hok].
+    apply (Permutation_in _ HP) in Hin. pose proof (find_none _ _ H _ Hin). congruence.
+Qed.
+
+Theorem first_success_perm : forall (ok : N -> bool) (res : N -> N) s s',
+  (forall x y, In x s -> In y s -> ok x = true -> ok y = true -> res x = res y) ->
+  Permutation s s' -> option_map res (find ok s) = option_map res (find ok s').
+Proof.
+  intros ok res s s' Hag HP.
+  destruct (find ok s) as [x|] eqn:E1; destruct (find ok s') as [y|] eqn:E2; cbn.
+  - apply find_some in E1. apply find_some in E2. destruct E1 as [I1 O1]. destruct E2 as [I2 O2].
+    f_equal. apply Hag; try assumption. apply (Permutation_in _ (Permutation_sym HP)). exact I2.
+  - exfalso. apply (find_some_perm ok s s' HP) in E2. congruence.
+  - exfalso. apply (find_some_perm ok s s' HP) in E1. congruence.
+  - reflexivity.
+Qed.
+
+(* ... and it is not when two successes disagree *)
+Lemma first_success_refuted : exists (ok : N -> bool) (res : N -> N) (s s' : list N),
+  Permutation s s' /\ option_map res (find ok s) <> option_map res (find ok s').
+Proof.
+  exists (fun _ => true), (fun x => x), [1%N; 2%N], [2%N; 1%N]. split; [apply perm_swap|cbn; discriminate].
+Qed.
